@@ -325,6 +325,20 @@ def match_known(prop, ob, known):
     return None
 
 
+def _about_rejections(o):
+    """C20 is about WHICH inputs are rejected and that accepted ones come back with the right shape -- not about the values
+    returned.  Of the obligations in its cone only these count: the `raises` obligations (exception exactly under the
+    documented condition, no exception otherwise), the vacuity guards, and the shape / rank / type clauses of `ensures`.
+    (A change that only alters returned values fails other properties' checks, not this one.)"""
+    if o["kind"] in ("raises", "vacuity", "lemma", "canary"):
+        return True
+    n = o["name"]
+    return any(s in n for s in (": shape ==", ": rank ", ": sequence of length", ": type is", ": is an array", ": mapping with keys", ": is a slice", "result is callable"))
+
+
+RELEVANT = {"C20": _about_rejections}
+
+
 # ------------------------------------------------------------------------------- main
 def check(prop, tier="quick", seed=0):
     t0 = time.time()
@@ -335,6 +349,36 @@ def check(prop, tier="quick", seed=0):
         print(f"ERROR: no contracts or lemmas registered for {prop}")
         return 3
     results = run_items(items)
+    # MODULAR CLOSURE: a proof of a function in the cone used the contracts of its callees (stubs); those contracts are
+    # premises of this property's proof, so their own obligations belong to its cone as well (otherwise a change inside a
+    # callee that breaks the callee's contract would go unnoticed by this check).  Iterated to a fixed point.
+    from symjnp import contracts as _CT
+    closure_added = []
+    for _round in range(8):
+        have = {(k, n) for (k, n, _l) in items}
+        callees = {a.split(": ", 1)[1] for r in results for a in r["assumptions"] if a.startswith("callee-by-contract: ")}
+        new = sorted(q for q in callees if ("contract", q) not in have and q in _CT.REGISTRY)
+        if not new:
+            break
+        extra = [("contract", q, case.label) for q in new for case in _CT.REGISTRY[q].cases]
+        closure_added += new
+        items += extra
+        results += run_items(extra)
+    # what an obligation must be about to count for THIS property (None: everything in the cone counts)
+    relevant = RELEVANT.get(prop)
+    excluded = [0]
+
+    def apply_relevance(rs):
+        if relevant is None:
+            return
+        for r in rs:
+            if r.get("_filtered"):
+                continue
+            n0 = len(r["obligations"])
+            r["obligations"] = [o for o in r["obligations"] if relevant(o)]
+            excluded[0] += n0 - len(r["obligations"])
+            r["_filtered"] = True
+    apply_relevance(results)
     # items with an obligation that is not discharged are re-examined once, serially and with a 3x time budget, so
     # that a verdict never depends on how busy the machine was (a timeout must not turn into an alarm)
     redo = [i for i, r in enumerate(results) if r["error"] or any(o["status"] != "discharged" for o in r["obligations"])]
@@ -348,6 +392,7 @@ def check(prop, tier="quick", seed=0):
                 results[i]["retried"] = True
         finally:
             _eng.TSCALE = old
+        apply_relevance(results)
     known = load_known()
     obligations = [dict(o, item=f"{r['name']}[{r['label']}]" if r["label"] else r["name"]) for r in results for o in r["obligations"]]
     errors = [r for r in results if r["error"]]
@@ -461,6 +506,8 @@ def check(prop, tier="quick", seed=0):
             "items": len(items),
             "items_reused_from_same_tree_cache": sum(1 for r in results if r.get("cached")),
             "tree_key": tree_key(),
+            "contracts_added_by_modular_closure": sorted(set(closure_added)),
+            "obligations_in_the_cone_not_about_this_property": excluded[0],
             "refuted": len(refuted), "undecided": len(unknown), "tool_errors": len(errors),
             "known_findings_reported": sorted(known_hits),
             "bounded_standins": standins,
